@@ -250,6 +250,15 @@ func checkC16(c *core.Ctx) {
 				bad = true
 				r2.Violate("gopacket.(*PacketSource).PacketsCtx/guard-skipped", p.InstrPos(first), "a path reaches channel creation / goroutine start without testing NoCopy", nil)
 			}
+			// the options are re-read for every packet, so the refusal has to be evaluated on every call, not
+			// only on the one that creates the channel: no path entry -> return may avoid the NoCopy test (C16-13)
+			if ret := core.ForwardSearch(pctx, nil, func(ins ssa.Instruction) bool { _, ok := ins.(*ssa.Return); return ok }, func(ins ssa.Instruction) bool {
+				iff, ok := ins.(*ssa.If)
+				return ok && fieldLoadNamed(iff.Cond, "NoCopy")
+			}); ret != nil && first == nil {
+				bad = true
+				r2.Violate("gopacket.(*PacketSource).PacketsCtx/guard-every-call", p.InstrPos(ret), "a call that finds the channel already created returns it without testing NoCopy && "+guardField+": options changed after the first call are not refused although packetsToChannel re-reads them per packet", nil)
+			}
 			if n == 0 {
 				r2.Missing("PacketsCtx/go", "no goroutine start / make(chan) found")
 			} else if !bad {
